@@ -22,7 +22,7 @@ def draw_records_world(rng, n_windows):
     envs = []
     for _ in range(n_windows):
         envs.append({"env": rng.choice(ENVELOPES), "comp": rng.choice(["all", "ns", "ew", "vt"]),
-                     "scale": rng.choice([1.0, 1.0, 1.0, 0.25, 8.0, 1e-6, 1e5]),
+                     "scale": rng.choice([1.0, 1.0, 1.0, 0.25, 8.0, 1e-6, 1e5, 1e-9, 1e-12]),      # counts ... m/s
                      "pos": rng.random(), "gain": rng.choice([3.0, 6.0, 15.0, 40.0])})
     if rng.random() < 0.25:
         # windows of one list need not share the time step or the length (sensors of different kinds, a shorter last window)
